@@ -268,6 +268,7 @@ def _task(arg):
     global _H
     if _H is None or _H.scn != scn or _H.opcodes != opc:
         _H = Harness(scn, seed, opc)
+        _H.run([])         # warm-up (see _root_task)
     stats = {}
     viols = []
     outcomes = set()
@@ -286,46 +287,61 @@ def _calls(x):
     return [e for e in x.events if e[1] == "call_end"]
 
 
+def _root_task(arg):
+    """default schedule computed inside a worker (after a warm-up run, so that one-off effects of the tracing
+    machinery - e.g. per-instruction instrumentation of the watched code objects - are the same for every run)"""
+    scn, seed, opc = arg
+    global _H
+    if _H is None or _H.scn != scn or _H.opcodes != opc:
+        _H = Harness(scn, seed, opc)
+    _H.run([])
+    root = _H.run([])
+    return {"choices": root.choices(), "viols": judge(root),
+            "points": [(len(p.enabled), p.running_enabled, p.choice) for p in root.points]}
+
+
 def run_s(ctx):
     bound = 3 if ctx.thorough else 2
     tot = {"executions": 0, "points": 0, "max_points": 0}
     viols, per, distinct = [], {}, 0
     scns = list(SCENARIOS)
-    for scn in scns:
-        for opc in ((False, True) if ctx.thorough else (False,)):
-            if opc and scn not in ("blk-vs-2plain", "blk-vs-plain"):
-                continue
-            b = bound if not opc else 2
-            if not ctx.thorough and scn in ("blk-vs-2plain", "blk2-vs-plain", "asdict-vs-asdict", "blkexc-vs-plain"):
-                b = 1
-            if ctx.thorough and scn == "blk-vs-2plain":
-                b = 2
-            h = Harness(scn, ctx.seed, opc)
-            # split: root + its children as parallel tasks
-            root = h.run([])
-            rv = judge(root)
-            for cause, msg in rv:
-                viols.append({"cause": cause, "msg": msg, "case": {"part": "S", "scenario": scn, "opcodes": opc, "schedule": root.choices()}})
-            tasks = []
-            ch = root.choices()
-            for i, p in enumerate(root.points):
-                if len(p.enabled) < 2:
-                    continue
-                cost = root.preemptions_before(i) + (1 if p.running_enabled else 0)
-                if cost > b:
-                    continue
-                for alt in range(1, len(p.enabled)):
-                    tasks.append((scn, ctx.seed, opc, b, ch[:i] + [alt]))
-            res = ctx.pmap(_task, tasks, chunk=1)
-            n = 1
-            for st, vs, nd in res:
-                n += st.get("executions", 0)
-                tot["points"] += st.get("points", 0)
-                tot["max_points"] = max(tot["max_points"], st.get("max_points", 0))
-                viols += vs
-                distinct += nd
-            tot["executions"] += n
-            per["%s%s" % (scn, "+opcodes" if opc else "")] = {"executions": n, "points_in_default_schedule": len(root.points), "preemption_bound": b}
+    plan = [(scn, False) for scn in scns]
+    if ctx.thorough:
+        plan += [("blk-vs-plain", True)]          # opcode-level scheduling points, in a pool of its own
+    fresh_pool_done = False
+    for scn, opc in plan:
+        b = bound if not opc else 2
+        if not ctx.thorough and scn in ("blk-vs-2plain", "blk2-vs-plain", "asdict-vs-asdict", "blkexc-vs-plain"):
+            b = 1
+        if ctx.thorough and scn in ("blk-vs-2plain", "blk2-vs-plain", "asdict-vs-asdict"):
+            b = 2
+        if opc and not fresh_pool_done:
+            ctx.close()
+            fresh_pool_done = True
+        r = ctx.pmap(_root_task, [(scn, ctx.seed, opc)] * 4, chunk=1)[0]
+        for cause, msg in r["viols"]:
+            viols.append({"cause": cause, "msg": msg, "case": {"part": "S", "scenario": scn, "opcodes": opc, "schedule": r["choices"]}})
+        tasks = []
+        ch = r["choices"]
+        pre = 0
+        for i, (nen, run_en, choice) in enumerate(r["points"]):
+            if nen >= 2:
+                cost = pre + (1 if run_en else 0)
+                if cost <= b:
+                    for alt in range(1, nen):
+                        tasks.append((scn, ctx.seed, opc, b, ch[:i] + [alt]))
+            if run_en and choice != 0:
+                pre += 1
+        res = ctx.pmap(_task, tasks, chunk=1)
+        n = 1
+        for st, vs, nd in res:
+            n += st.get("executions", 0)
+            tot["points"] += st.get("points", 0)
+            tot["max_points"] = max(tot["max_points"], st.get("max_points", 0))
+            viols += vs
+            distinct += nd
+        tot["executions"] += n
+        per["%s%s" % (scn, "+opcodes" if opc else "")] = {"executions": n, "points_in_default_schedule": len(r["points"]), "preemption_bound": b}
     cov = {"executions": tot["executions"], "states": tot["executions"], "transitions": tot["points"],
            "max_points_per_execution": tot["max_points"], "scenarios": per, "preemption_bound": bound,
            "distinct_outcome_vectors": distinct,
